@@ -28,7 +28,7 @@ RULE = {
            "switched threads at least once while >=2 threads were still running; distinct = distinct sequences of "
            "(from-thread, to-thread, function, relative line) at the switch points",
 }
-FAULT_KINDS = {"C19": ["preemption", "lock_contention", "crypt_static_buffer_yield", "import_lock_wait"]}
+FAULT_KINDS = {"C19": ["preemption", "lock_contention", "crypt_static_buffer_yield", "import_lock_wait", "first_initialisation_fails"]}
 COMPONENTS = {
     "real": ["all passlib code (context, registry, utils.handlers backend machinery, utils.binary lazy engines, crypto.digest, handlers)",
              "CPython threads (real threading.Thread, one runnable at a time)", "crypt(3), bcrypt wheel, hashlib"],
@@ -130,13 +130,13 @@ def _ctx_calls(rng, schemes, n, allow_hash=True, cats=(None,)):
 
 
 def generate(rng, prop, tier):
-    t = rng.choices(["T1", "T2", "T3", "T4", "T5", "T6", "T7", "T8", "T9", "T10"], [22, 12, 22, 14, 8, 8, 4, 10, 3, 3])[0]
+    t = rng.choices(["T1", "T2", "T3", "T4", "T5", "T6", "T7", "T8", "T9", "T10"], [18, 12, 18, 11, 13, 8, 4, 13, 3, 3])[0]
     nthreads = rng.choice([2, 2, 2, 3])
     params = {}
     threads = []
     if t == "T1":
         schemes = rng.sample(CTX_SCHEMES, rng.randint(1, 4))
-        params = {"kwds": _ctx_kwds(rng, schemes), "onload": rng.random() < 0.4}
+        params = {"kwds": _ctx_kwds(rng, schemes), "onload": rng.choice([False, False, False, True, True, "fail_once"])}
         threads = [_ctx_calls(rng, schemes, rng.randint(1, 3), cats=(None, "admin")) for _ in range(nthreads)]
     elif t == "T2":
         mod, name, schemes = rng.choice(PRESETS)
@@ -178,12 +178,18 @@ def generate(rng, prop, tier):
                 name = rng.choice(names)
                 spelled = rng.choice([name, name, name, name.replace("_", "-"), name.upper()])
                 k = rng.choice(["get_crypt_handler", "hash_attr", "new_context", "get_crypt_handler"])
-                if rng.random() < 0.15:
+                if rng.random() < 0.22:
                     k = "list_handlers"  # enumerating the registry while other threads are loading entries into it
                 elif name in KNOWN and rng.random() < 0.35:
                     k = "reg_verify"  # first import + first backend choice + lazily resolved wrapped handler, all in the threads
                 calls.append([k, spelled if rng.random() < 0.3 and k not in ("hash_attr", "reg_verify", "list_handlers") else name])
             threads.append(calls)
+        if any(c[0] == "list_handlers" for th in threads for c in th):
+            # enumerating an EMPTY registry has no window: make sure it is populated before the threads start, and that some
+            # other thread still has a first load to make
+            params["preload"] = rng.sample(REGISTRY_NAMES, rng.choice([2, 3, 5]))
+            if not any(c[0] != "list_handlers" for th in threads for c in th):
+                threads[-1] = [["get_crypt_handler", rng.choice(names)]]
     elif t == "T6":
         schemes = rng.sample(CTX_SCHEMES, rng.randint(1, 4))
         if rng.random() < 0.5:
@@ -216,7 +222,10 @@ def generate(rng, prop, tier):
             threads.append([rng.choice([["lp_roundtrip", f"pw{rng.randint(0, 9)}"], ["lp_verify_known"], ["lp_needs_update_known"], ["lp_verify_wrong"]])
                             for _ in range(rng.randint(1, 3))])
     else:  # T8
-        schemes = rng.sample(["md5_crypt", "sha256_crypt", "des_crypt", "sha512_crypt", "bsdi_crypt", "sha1_crypt", "bcrypt"], rng.randint(1, 3))
+        # (nthash / msdcc / lmhash / hex_md4 run on the library's pure-Python MD4 and DES here: hashlib has no md4 on this image)
+        schemes = rng.sample(["md5_crypt", "sha256_crypt", "des_crypt", "sha512_crypt", "bsdi_crypt", "sha1_crypt", "bcrypt",
+                              "nthash", "nthash", "lmhash", "bsd_nthash"], rng.randint(1, 3))
+        schemes = list(dict.fromkeys(schemes))
         params = {"kwds": _ctx_kwds(rng, schemes), "schemes": schemes}
         for i in range(nthreads):
             calls = []
@@ -264,6 +273,10 @@ def simplify_cfg(cfg):
 # ---------------------------------------------------------------------------------------------
 # environment + calls
 # ---------------------------------------------------------------------------------------------
+class OnloadFailure(RuntimeError):
+    """raised by the harness's own onload callback (fault: the first initialisation of a lazy context fails)"""
+
+
 def _install_locks(sched):
     """replace every lock object the library keeps (module globals and class attributes of passlib/libpass
     modules) by a cooperative SimLock with the same re-entrancy: a parked thread must never hold a real lock"""
@@ -301,7 +314,13 @@ def build_env(cfg):
 
             kw = dict(p["kwds"])
             if p.get("onload"):
+                state = {"calls": 0}
+
                 def onload(**kwds):
+                    state["calls"] += 1
+                    if p["onload"] == "fail_once" and state["calls"] == 1:
+                        # a configuration source that is not there yet: the first initialisation fails, a later one works
+                        raise OnloadFailure("configuration source not ready")
                     kwds.pop("marker", None)
                     return kwds
 
@@ -618,7 +637,11 @@ def execute(program, ctx):
 
     cfg = program["cfg"]
     # 1. specification outcome, in a grandchild forked from this still-fresh process
-    ref = core.isolated(lambda: _sequential(cfg), timeout=50)
+    fail_once = cfg["target"] == "T1" and cfg["params"].get("onload") == "fail_once"
+    # (with an onload callback that fails once, WHICH call meets the failure depends on the schedule: every other call is
+    #  compared with what a working context answers, and exactly one call must have met the injected failure)
+    ref_cfg = dict(cfg, params=dict(cfg["params"], onload=True)) if fail_once else cfg
+    ref = core.isolated(lambda: _sequential(ref_cfg), timeout=50)
     if "harness_error" in ref:
         raise core.HarnessError(f"sequential reference failed: {ref['harness_error']} {ref.get('traceback', '')}")
     # 2. the concurrent run
@@ -697,9 +720,13 @@ def execute(program, ctx):
         ctx.nontrivial = True
         ctx.key([list(s) for s in sched.switch_sites])
     # 3. compare, call by call
+    injected = 0
     for ti, (got_t, want_t) in enumerate(zip(fixed, ref["outcomes"])):
         for ci, (got, want) in enumerate(zip(got_t, want_t)):
             call = cfg["threads"][ti][ci]
+            if fail_once and got[0] == "exc" and got[1] == "OnloadFailure":
+                injected += 1
+                continue
             if got[0] == "exc":
                 same = want[0] == "exc" and want[1] == got[1]
                 ctx.check(same, "C19", "thread-outcome-differs",
@@ -711,6 +738,10 @@ def execute(program, ctx):
                           lambda: f"{tgt}: thread {ti} call {call} returned {got[1]!r}; a single thread gets {want}; "
                                   f"switches={sched.switch_sites[:12]}",
                           target=kind, exc="wrong-value", func=call[0])
+    if fail_once:
+        ctx.fault("first_initialisation_fails")
+        ctx.check(injected == 1, "C19", "thread-outcome-differs",
+                  f"{tgt}: the onload callback failed exactly once, but {injected} calls met the failure", target=kind, exc="injected-failure-count", func="onload")
     for name, n in ids.items():
         ctx.check(n == 1, "C19", "registry-object-not-unique", f"{name}: {n} distinct handler objects handed out", target=kind)
 
